@@ -36,8 +36,9 @@ ALLOWED_WRITERS = {
 
 
 def run(repo: Repo, rep, tier: str):
+    from .. import inline
     proj = repo.cls("Project", module="rv.project")
-    fn = repo.own_method(proj, "connect")
+    fn = inline.flatten(repo, proj, repo.own_method(proj, "connect"))
     rep.func("rv.project.Project.connect")
     connect_rules(repo, rep, "C07", proj, fn)
     operator_rules(repo, rep, "C07")
@@ -47,8 +48,9 @@ def run(repo: Repo, rep, tier: str):
 
 def ownership_refusal(repo: Repo, rep, P: str):
     """R4 alone (shared with C17): both operands are looked up in this project's module list before any link table is touched."""
+    from .. import inline
     proj = repo.cls("Project", module="rv.project")
-    fn = repo.own_method(proj, "connect")
+    fn = inline.flatten(repo, proj, repo.own_method(proj, "connect"))
     loops, params = operand_loops(fn)
     if not loops:
         rep.inconclusive(f"{P}.R4", f"{proj.file.rel}:Project.connect", "", "no operand loops", proj.file.rel)
@@ -67,7 +69,8 @@ def operand_loops(fn: ast.FunctionDef) -> Tuple[List[ast.For], List[str]]:
     def rec(stmts):
         for st in stmts:
             if isinstance(st, ast.For):
-                it = st.iter
+                from ..packed import subst_locals
+                it = subst_locals(fn, st.iter)
                 names = {n.id for n in ast.walk(it) if isinstance(n, ast.Name)}
                 if names & set(params):
                     loops.append(st)
@@ -84,17 +87,38 @@ def operand_loops(fn: ast.FunctionDef) -> Tuple[List[ast.For], List[str]]:
     return loops, params
 
 
-def loops_cover_all_pairs(loops: List[ast.For], params: List[str]) -> Optional[str]:
+def _whole_operand(e: ast.expr, params: List[str], fn: Optional[ast.FunctionDef]) -> Optional[str]:
+    """The operand parameter that `e` denotes in full (directly, copied, or normalised `[p] if single else p`)."""
+    while isinstance(e, ast.Call) and norm(e.func) in ("list", "tuple", "iter") and len(e.args) == 1:
+        e = e.args[0]
+    if isinstance(e, ast.Name) and e.id in params:
+        return e.id
+    if isinstance(e, ast.Name) and fn is not None:
+        from ..packed import subst_locals
+        r = subst_locals(fn, e)
+        if not (isinstance(r, ast.Name) and r.id == e.id):
+            return _whole_operand(r, params, None)
+    if isinstance(e, ast.IfExp):
+        for single, whole in ((e.body, e.orelse), (e.orelse, e.body)):
+            if isinstance(whole, ast.Name) and whole.id in params and isinstance(single, (ast.List, ast.Tuple)) and len(single.elts) == 1 \
+                    and norm(single.elts[0]) == whole.id:
+                return whole.id
+    return None
+
+
+def loops_cover_all_pairs(loops: List[ast.For], params: List[str], fn: Optional[ast.FunctionDef] = None) -> Optional[str]:
     """None if the loops iterate the full cross product of both operands; else a reason."""
     covered = set()
     for l in loops:
         it = l.iter
-        if isinstance(it, ast.Name) and it.id in params:
-            covered.add(it.id)
+        w = _whole_operand(it, params, fn)
+        if w is not None:
+            covered.add(w)
         elif isinstance(it, ast.Call) and norm(it.func).split(".")[-1] == "product" and not it.keywords:
             for a in it.args:
-                if isinstance(a, ast.Name) and a.id in params:
-                    covered.add(a.id)
+                wa = _whole_operand(a, params, fn)
+                if wa is not None:
+                    covered.add(wa)
                 else:
                     return f"product argument {norm(a)} is not an operand list"
         else:
@@ -119,7 +143,7 @@ def connect_rules(repo: Repo, rep, P: str, proj, fn: ast.FunctionDef):
     if not loops:
         rep.inconclusive(f"{P}.R1", construct, "", "no loop over the operand lists found", f"{rel}:{fn.lineno}")
         return
-    why = loops_cover_all_pairs(loops, params)
+    why = loops_cover_all_pairs(loops, params, fn)
     if why:
         rep.violation(f"{P}.R1", construct, "; ".join(f"for {norm(l.target)} in {norm(l.iter)}" for l in loops),
                       f"not every (from, to) pair is visited: {why}", f"{rel}:{loops[0].lineno}")
@@ -532,21 +556,99 @@ def _refusal_dominates(repo, rep, P, construct, rel, g: CFG):
 
 
 def _unwrap_rule(rep, P, construct, rel, fn):
-    """connect unwraps a DisconnectingModule on either operand and takes the disconnect branch."""
-    src = norm(fn)
-    unwrap = [n for n in ast.walk(fn) if isinstance(n, ast.If) and "isinstance" in norm(n.test)
-              and "DisconnectingModule" in norm(n.test) and any(".orig" in norm(s) for s in n.body)]
-    operands = set()
-    for n in unwrap:
-        for s in n.body:
-            if isinstance(s, ast.Assign) and ".orig" in norm(s.value) and isinstance(s.targets[0], ast.Name):
-                operands.add(s.targets[0].id)
-    if len(operands) >= 2 and all(any(isinstance(s, ast.Assign) and norm(s) == "disconnect = True" for s in n.body) for n in unwrap):
-        rep.ok(f"{P}.R5", construct, "; ".join(norm(n.test) for n in unwrap), "either operand may carry the ~ marker")
+    """connect unwraps a DisconnectingModule on either operand and takes the disconnect branch: the condition that selects the
+    unlink branch depends (through data or control) on `isinstance(x, DisconnectingModule)` for BOTH operands, and both are
+    replaced by `.orig`."""
+    loops, params = operand_loops(fn)
+    operand_vars = [n.id for l in loops[-2:] for n in ast.walk(l.target) if isinstance(n, ast.Name)]
+    if len(operand_vars) < 2:
+        rep.inconclusive(f"{P}.R5", construct, "", "operand loops not found", f"{rel}:{fn.lineno}")
+        return
+    body = loops[-1]
+    parents: Dict[int, ast.AST] = {}
+    for n in ast.walk(body):
+        for c in ast.iter_child_nodes(n):
+            parents[id(c)] = n
+    # aliases of the operand variables (from_module = from_operand / tuple assignment / .orig / conditional expression)
+    origin: Dict[str, Set[str]] = {v: {v} for v in operand_vars}
+    changed = True
+    while changed:
+        changed = False
+        for n in ast.walk(body):
+            if isinstance(n, ast.Assign) and len(n.targets) == 1:
+                pairs = []
+                t, v = n.targets[0], n.value
+                if isinstance(t, ast.Tuple) and isinstance(v, ast.Tuple) and len(t.elts) == len(v.elts):
+                    pairs = list(zip(t.elts, v.elts))
+                else:
+                    pairs = [(t, v)]
+                for tt, vv in pairs:
+                    if isinstance(tt, ast.Name):
+                        src = set()
+                        for m in ast.walk(vv):
+                            if isinstance(m, ast.Name) and m.id in origin:
+                                src |= origin[m.id]
+                        if src and not src <= origin.get(tt.id, set()):
+                            origin.setdefault(tt.id, set()).update(src)
+                            changed = True
+    # the unlink branch: an If one of whose branches stores -1 into a link table
+    unlink_if = None
+    for n in ast.walk(body):
+        if isinstance(n, ast.If):
+            def blanks(stmts):
+                return any(isinstance(x, ast.Assign) and isinstance(x.targets[0], ast.Subscript) and norm(x.value) == "-1"
+                           for st in stmts for x in ast.walk(st))
+            b, o = blanks(n.body), blanks(n.orelse)
+            if b != o and not isinstance(n.test, ast.Constant):
+                # the outermost non-constant test that separates blanking from not blanking
+                if unlink_if is None:
+                    unlink_if = n
+    if unlink_if is None:
+        rep.inconclusive(f"{P}.R5", construct, "", "branch that blanks a link (… = -1) not found", f"{rel}:{fn.lineno}")
+        return
+    # dependence closure of the branch condition
+    seen_names: Set[str] = set()
+    tested: Set[str] = set()
+    work = [unlink_if.test]
+    # control dependence of the unlink branch itself
+    cur: ast.AST = unlink_if
+    while id(cur) in parents:
+        cur = parents[id(cur)]
+        if isinstance(cur, ast.If):
+            work.append(cur.test)
+    while work:
+        e = work.pop()
+        for m in ast.walk(e):
+            if isinstance(m, ast.Call) and norm(m.func) == "isinstance" and len(m.args) == 2 and "DisconnectingModule" in norm(m.args[1]):
+                for q in ast.walk(m.args[0]):
+                    if isinstance(q, ast.Name):
+                        tested |= origin.get(q.id, {q.id})
+            if isinstance(m, ast.Name) and m.id not in seen_names:
+                seen_names.add(m.id)
+                for a in ast.walk(body):
+                    if isinstance(a, (ast.Assign, ast.AugAssign)):
+                        tg = a.targets if isinstance(a, ast.Assign) else [a.target]
+                        if any(isinstance(x, ast.Name) and x.id == m.id for t in tg for x in ast.walk(t)):
+                            work.append(a.value)
+                            c2: ast.AST = a
+                            while id(c2) in parents:
+                                c2 = parents[id(c2)]
+                                if isinstance(c2, ast.If):
+                                    work.append(c2.test)
+    unwrapped: Set[str] = set()
+    for m in ast.walk(body):
+        if isinstance(m, ast.Attribute) and m.attr == "orig":
+            for q in ast.walk(m.value):
+                if isinstance(q, ast.Name):
+                    unwrapped |= origin.get(q.id, {q.id})
+    need = set(operand_vars)
+    missing_t, missing_u = sorted(need - tested), sorted(need - unwrapped)
+    if not missing_t and not missing_u:
+        rep.ok(f"{P}.R5", construct, f"if {norm(unlink_if.test)}: … = -1", "either operand may carry the ~ marker (the unlink condition depends on both isinstance tests)")
     else:
-        rep.violation(f"{P}.R5", construct, "; ".join(norm(n.test) for n in unwrap) or "isinstance(..., DisconnectingModule)",
-                      f"the ~ marker is unwrapped for operands {sorted(operands)} only (both needed, each selecting the "
-                      "disconnect branch)", f"{rel}:{fn.lineno}")
+        rep.violation(f"{P}.R5", construct, f"if {norm(unlink_if.test)}",
+                      f"the ~ marker is unwrapped for operands {sorted(need - set(missing_u))} and tested for {sorted(need - set(missing_t))} only "
+                      "(both needed, each selecting the disconnect branch)", f"{rel}:{unlink_if.lineno}")
 
 
 # ------------------------------------------------------------------------------ R5
@@ -563,7 +665,10 @@ def operator_rules(repo: Repo, rep, P: str):
                 rep.violation(f"{P}.R5", f"{rel}:{cname}.{op}", f"def {op}", "operator removed", f"{rel}:{ci.node.lineno}")
                 continue
             n += 1
-            calls = [norm(c) for c in walk_no_nested(fn) if isinstance(c, ast.Call) and norm(c.func).endswith(".connect")]
+            from .. import inline
+            from ..packed import subst_locals
+            fn = inline.flatten(repo, ci, fn, sf=modfile)
+            calls = [norm(subst_locals(fn, c)) for c in walk_no_nested(fn) if isinstance(c, ast.Call) and norm(c.func).endswith(".connect")]
             if calls == [call]:
                 rep.ok(f"{P}.R5", f"{rel}:{cname}.{op}", call)
             else:
